@@ -106,6 +106,13 @@ struct Ledger
             throw std::bad_alloc();
         }
         const std::size_t bytes = n * tsize;
+        if (bytes > (std::size_t{1} << 26))
+        {
+            // nothing in the generated domain needs more than a few KiB: a request like this comes from garbage
+            // bookkeeping. Die quickly (the engine records the case) instead of filling gigabytes with canaries.
+            std::fprintf(stderr, "LEDGER: absurd allocation request of %zu bytes (n=%zu, value_type size %zu)\n", bytes, n, tsize);
+            std::abort();
+        }
         const std::size_t al = talign < 1 ? 1 : talign;
         // user pointer: aligned to exactly `al`, deliberately NOT to 2*al
         const std::size_t big = (al * 2 < 128) ? 128 : al * 2;
